@@ -221,7 +221,11 @@ def _label_finder(
     if n_node < 8 or exhaustive:
         perm = list(permutations([*range(n_node)]))
         initial_perm = np.array([[*range(n_node)]])
-        labels_list = rng.choice(perm[1:], n_label - 1)
+        labels_list = (
+            rng.choice(perm[1:], n_label - 1)
+            if len(perm) > 1
+            else np.empty((0, n_node), dtype=int)
+        )
         labels_list = np.concatenate((initial_perm, labels_list), axis=0)
         return labels_list
     else:
